@@ -12,7 +12,7 @@ from vf.sim.drive import SCase, outcome_maps, run_async
 
 PROP_ID = 'C06'
 LEVEL = 'exploration'
-BUDGET = {'quick': 400, 'thorough': 10000}
+BUDGET = {'quick': 400, 'thorough': 8000}
 MANIFEST = {
     'engine': 'S',
     'technique': 'stateful model-based PBT on the stepped scheduler: a model '
